@@ -169,6 +169,17 @@ static void run_case(const Case &c, pbt::Ctx &ctx)
     mon->inBody.fetch_sub(1);
   };
   const bool threadMode = (c.launch % 2) == 0;
+  // launch bit 1: the body's call operator is noexcept (a different instantiation of everything that is templated on it)
+  const bool noexceptBody = ((c.launch / 2) % 2) == 1;
+  auto bodyNx = [mon, bodyUs]() noexcept {
+    mon->inBody.fetch_add(1);
+    mon->entries.fetch_add(1);
+    hookFn("body.inside", nullptr);
+    burn(bodyUs);
+    mon->inBody.fetch_sub(1);
+  };
+  if (noexceptBody)
+    ctx.label("noexcept body");
   bool running = false, everStarted = false, stopAfterStart = false;
   long quietFrom = -1;  // entry count that must not change while stopped
   std::string failure;
@@ -184,7 +195,8 @@ static void run_case(const Case &c, pbt::Ctx &ctx)
     }
   };
   {
-    std::unique_ptr<AsyncLoop> loop(new AsyncLoop(body, threadMode ? AsyncLoop::THREAD : AsyncLoop::TASK));
+    std::unique_ptr<AsyncLoop> loop(noexceptBody ? new AsyncLoop(bodyNx, threadMode ? AsyncLoop::THREAD : AsyncLoop::TASK)
+                                                 : new AsyncLoop(body, threadMode ? AsyncLoop::THREAD : AsyncLoop::TASK));
     for (auto &op : c.prog) {
       if (!failure.empty())
         break;
@@ -320,7 +332,7 @@ static rc::Gen<DelayCase> genDelayCase()
   using namespace rc;
   auto op = gen::pair(gen::weightedElement<int>({{5, OP_START}, {5, OP_STOP}, {1, OP_AWAIT}, {1, OP_PAUSE}}), pbt::range<int>(0, 299));
   auto cls = gen::weightedElement<int>({{10, 0}, {2, 1}, {3, 2}, {2, 3}, {1, 4}});
-  return gen::build<DelayCase>(gen::set(&DelayCase::launch, gen::weightedElement<int>({{3, 0}, {1, 1}})), gen::set(&DelayCase::prog, gen::weightedOneOf<std::vector<std::pair<int, int>>>({{1, pbt::vec(op, 12)}, {2, pbt::vec(op, 48)}})),
+  return gen::build<DelayCase>(gen::set(&DelayCase::launch, gen::weightedElement<int>({{3, 0}, {1, 1}, {2, 2}, {1, 3}})), gen::set(&DelayCase::prog, gen::weightedOneOf<std::vector<std::pair<int, int>>>({{1, pbt::vec(op, 12)}, {2, pbt::vec(op, 48)}})),
       gen::set(&DelayCase::delayClass, gen::container<std::vector<int>>((size_t)NPOINTS, cls)), gen::set(&DelayCase::bodyUs, gen::weightedOneOf<int>({{3, gen::just(0)}, {1, pbt::range<int>(1, 100)}})));
 }
 
@@ -422,6 +434,46 @@ static std::string long_body_one(bool threadMode, bool viaDestructor, double sec
     waitFor([&] { return mon.use_count() == 1; }, 40.0);  // the scheduled loop keeps the monitor alive until it has left
   return "";
 }
+// The controlling thread may itself be the thread of ANOTHER AsyncLoop (a manager loop that pauses a worker loop from its
+// body): stop() must still wait for the worker's body.  Returns "" or a failure message.
+static std::string controlled_from_a_loop(bool managerThread, bool workerThread, double seconds)
+{
+  auto wmon = std::make_shared<Monitor>();
+  auto wbody = [wmon, seconds]() {
+    wmon->inBody.fetch_add(1);
+    if (wmon->entries.fetch_add(1) == 0)
+      std::this_thread::sleep_for(std::chrono::duration<double>(seconds));
+    wmon->inBody.fetch_sub(1);
+  };
+  auto worker = std::make_shared<AsyncLoop>(wbody, workerThread ? AsyncLoop::THREAD : AsyncLoop::TASK);
+  worker->start();
+  if (!waitFor([&] { return wmon->entries.load() > 0; }, 20.0))
+    return "worker loop: the body was not executed within 20 s after start()";
+  auto verdict = std::make_shared<std::atomic<int>>(0);  // 1 ok, 2 body still running when stop() returned
+  auto done = std::make_shared<std::atomic<bool>>(false);
+  auto mbody = [worker, wmon, verdict, done]() {
+    if (done->load())
+      return;
+    worker->stop();
+    verdict->store(wmon->inBody.load() == 0 ? 1 : 2);
+    done->store(true);
+  };
+  {
+    AsyncLoop manager(mbody, managerThread ? AsyncLoop::THREAD : AsyncLoop::TASK);
+    manager.start();
+    if (!waitFor([&] { return done->load(); }, seconds + 30.0))
+      return "manager loop: stop() of the worker loop did not return";
+    manager.stop();
+  }
+  std::ostringstream os;
+  if (verdict->load() == 2) {
+    os << "stop() called from the body of another AsyncLoop (" << (managerThread ? "THREAD" : "TASK") << ") returned while the " << (workerThread ? "THREAD" : "TASK")
+       << " loop's body invocation of " << seconds << " s was still executing";
+    return os.str();
+  }
+  worker.reset();
+  return "";
+}
 static void long_body_case(const std::pair<int, int> &cs, pbt::Ctx &ctx)
 {
   if (!cs.first) {
@@ -441,11 +493,14 @@ static void long_body_case(const std::pair<int, int> &cs, pbt::Ctx &ctx)
     durations.push_back(11);
     durations.push_back(31);
   }
-  std::vector<std::string> results(durations.size() * 4);
+  std::vector<std::string> results(durations.size() * 4 + 3);
   std::vector<std::thread> th;
   for (size_t i = 0; i < durations.size(); ++i)
     for (int k = 0; k < 4; ++k)
       th.emplace_back([&, i, k] { results[i * 4 + (size_t)k] = long_body_one((k & 1) == 0, (k & 2) != 0, durations[i] + 0.01 * cs.second); });
+  // a worker loop stopped from the body of a manager loop (THREAD/THREAD, THREAD/TASK, TASK/THREAD), body of 0.5 s
+  for (int k = 0; k < 3; ++k)
+    th.emplace_back([&, k] { results[durations.size() * 4 + (size_t)k] = controlled_from_a_loop(k != 2, k != 1, 0.5 + 0.01 * cs.second); });
   for (auto &t : th)
     t.join();
   for (auto &r : results)
@@ -477,7 +532,7 @@ static rc::Gen<Case> genCase()
         return std::vector<Rule>{a, b};
       });
   auto rules = gen::weightedOneOf<std::vector<Rule>>({{2, pbt::vec(rule, 3)}, {3, pin}});
-  return gen::build<Case>(gen::set(&Case::launch, gen::weightedElement<int>({{3, 0}, {1, 1}})), gen::set(&Case::prog, pbt::vec(op, 8)), gen::set(&Case::rules, rules),
+  return gen::build<Case>(gen::set(&Case::launch, gen::weightedElement<int>({{3, 0}, {1, 1}, {2, 2}, {1, 3}})), gen::set(&Case::prog, pbt::vec(op, 8)), gen::set(&Case::rules, rules),
       gen::set(&Case::bodyUs, gen::weightedOneOf<int>({{2, gen::just(0)}, {2, pbt::range<int>(1, 200)}})));
 }
 
@@ -549,6 +604,11 @@ static void enumerate(pbt::SweepResult<EnumCase> &r)
             e.rules = {Rule{X, 1, P, j}, Rule{P, j, Y, 1}};
             if (!runOne(e))
               return;
+            if (thorough || P <= 4) {  // the same pin with a noexcept body (quick tier: loop points up to "unpublished")
+              e.launch = 2;
+              if (!runOne(e))
+                return;
+            }
           }
   }
   r.labels["pin-pairs-enumerated"] = r.evaluations;
